@@ -45,6 +45,7 @@ type undoEntry struct {
 
 // Exec is one worker's interpreter state.
 type Exec struct {
+	ptrIDs map[any]int64 // identities handed out by reflect.Value.Pointer
 	w        *World
 	prog     *ssa.Program
 	tt       *TermTable
